@@ -277,7 +277,7 @@ def determine_peaks_only_delta_series(values):
     array([0,  2, -1,  1,  0,  -1,  0,  -2,  0,  2,  0])
     """
     # enforce array type
-    values = np.array(values)
+    values = np.array(values, dtype=float)
     # rebase to zero as first value
     values -= values[0]
     # remove all non-changing values
@@ -371,7 +371,7 @@ def determine_pseudo_cyclic_peak_only_series(values):
     array([0,  2, -1,  2,  0,  1,  0,  1,  0,  1,  0])
     """
     # enforce array type
-    values = np.array(values)
+    values = np.array(values, dtype=float)
     # rebase to zero as first value
     values -= values[0]
     # remove all non-changing values
